@@ -391,6 +391,7 @@ Proof.
   destruct (sp_walk _ (skipn 2 r) _ 0) as [[[hs p2] tot]|]; [|discriminate].
   destruct (negb (tot =? Z.to_nat (unbe (firstn 2 r)))%nat); [discriminate|].
   destruct (sp_walk _ (skipn 2 p2) _ 0) as [[[us p4] tot2]|]; [|discriminate].
+  destruct (negb (tot2 =? Z.to_nat (unbe (firstn 2 p2)))%nat); [discriminate|].
   injection E as <- _. cbn [sp_hashed_raw].
   exists (skipn (Z.to_nat (unbe (firstn 2 r)) + 2) r).
   change ([t; pk; h] ++ firstn (Z.to_nat (unbe (firstn 2 r)) + 2) r ++ skipn (Z.to_nat (unbe (firstn 2 r)) + 2) r)
@@ -406,6 +407,7 @@ Proof.
   destruct (sp_walk _ (skipn 2 p) _ 0) as [[[hs p2] tot]|] eqn:Ew; [|discriminate].
   destruct (tot =? hl)%nat eqn:Et; cbn [negb] in H; [|discriminate].
   destruct (sp_walk _ (skipn 2 p2) _ 0) as [[[us p4] tot2]|]; [|discriminate].
+  destruct (negb (tot2 =? Z.to_nat (unbe (firstn 2 p2)))%nat); [discriminate|].
   injection H as <- _. cbn [sp_hashed_raw]. apply Nat.eqb_eq in Et.
   destruct (sp_walk_spec _ _ _ _ _ _ _ Ew) as [_ [Lw _]].
   rewrite firstn_length. rewrite skipn_length in Lw. lia.
